@@ -391,6 +391,33 @@ CtorCases ==
 \cup {CtorRec(cn, Sto(cn), n, n, NoOpd, Ident(n, n)) :
         cn \in {"DenseIdentityMatrix", "SparseIdentityMatrix", "DenseMagicIdentityMatrix", "SparseMagicIdentityMatrix"}, n \in 0..3}
 
+(***************************************************************************)
+(* Equals WITH AN EPSILON DIMENSION.  Values are integers in units of      *)
+(* 2^EqScale (exact dyadic numbers in float32 and float64), epsilon is     *)
+(* EqEps units.  Contract (doc comment of Equals, scalar Equals: strict    *)
+(* comparison): Equals(r, a, eps) iff |r_i - a_i| < eps for every i --     *)
+(* whatever the storage, and whichever of the two operands stores an entry *)
+(* (an absent entry is 0).  Differences below (1023, 1), equal to (1024)   *)
+(* and above epsilon occur at positions stored in both, in only one of the *)
+(* operands, or as explicitly stored zeros (receiver kinds d, s, z x all   *)
+(* operand representations).  Instantiated for the floating point and      *)
+(* magic element types.                                                    *)
+(***************************************************************************)
+EqScale == -40
+EqEps   == 1024                         \* 2^-30
+EqVals  == {0, 1, 1024, 1048576}        \* 0, 2^-40, 2^-30 (= eps), 2^-20
+AbsDiff(x, y) == IF x < y THEN y - x ELSE x - y
+WithinEps(rc, ac) == \A i \in 1..Len(rc) : AbsDiff(rc[i][1], ac[i][1]) < EqEps
+EqEpsCases ==
+  LET shapes == {<<1, -1>>, <<2, -1>>, <<1, 1>>, <<1, 2>>, <<2, 1>>}
+  IN UNION {
+       {[op |-> "Equals", scale |-> EqScale, epsu |-> EqEps,
+         r |-> Rep(k, sh[1], sh[2], MkV(xy[1]), "-"),
+         a |-> Opd(Rep(k, sh[1], sh[2], MkV(xy[1]), "-"), sh[1], sh[2], MkV(xy[2])), b |-> NoOpd, s |-> NoS,
+         dims |-> <<sh[1], sh[2], 0>>, exp |-> Exp("b", <<>>, WithinEps(MkV(xy[1]), MkV(xy[2])))] :
+          xy \in {q \in Tuples(Len2(sh[1], sh[2]), EqVals) \X Tuples(Len2(sh[1], sh[2]), EqVals) : k \in OpKinds(MkV(q[1]))}}
+       : sh \in shapes, k \in {"d", "s", "z"}}
+
 (* ---- simulation: random contents beyond the exhaustive bounds ---------- *)
 RV(n, D) == SeqOf(n, LAMBDA i : RandomElement(D))
 V5 == -2..2
@@ -465,7 +492,12 @@ EmitCtor ==
   /\ \E k \in CtorCases : Put(k)
   /\ ph' = "case" /\ UNCHANGED <<fam, rcv, rx, ry>>
 
-Next == PickFamily \/ PickReceiver \/ EmitCase \/ EmitScalar \/ EmitCtor
+EmitEqEps ==
+  /\ ph = "start" /\ ~Sim /\ ~Special /\ ~ZeroVar /\ Part \in {"all", "vec"}
+  /\ \E k \in EqEpsCases : Put(k)
+  /\ ph' = "case" /\ UNCHANGED <<fam, rcv, rx, ry>>
+
+Next == PickFamily \/ PickReceiver \/ EmitCase \/ EmitScalar \/ EmitCtor \/ EmitEqEps
 Spec == Init /\ [][Next]_vars
 
 (***************************************************************************)
